@@ -79,7 +79,22 @@ RECURSIVE Seqs(_)
 Seqs(n) == IF n = 0 THEN {<<>>} ELSE {<<>>} \cup { <<a>> \o t : a \in Alphabet, t \in Seqs(n - 1) }
 SeqScripts == { Setup(s) \o q \o Probes(s) : s \in {TRUE, FALSE}, q \in Seqs(MaxLen) }
 
+\* ---- a callback that edits the token object it is handed: the checks are made on what the token CARRIES -
+\* a claim the callback adds, corrects or removes does not satisfy or escape an expectation
+Val(t, n, v, r) == [t |-> t, name |-> n, val |-> v, replace |-> r, jcls |-> NONE, jm |-> <<>>, jcanon |-> NONE]
+StepSet(w, v) == [k |-> "set", which |-> w, v |-> v, map |-> 0]
+StepDel(w, n) == [k |-> "del", which |-> w, v |-> Val("int", n, W0, 0), map |-> 0]
+CbEdit(c) == { <<StepSet("clm", Val("str", c, "me", 1))>>, <<StepSet("clm", Val("str", c, "me", 0))>>, <<StepDel("clm", c)>>, <<StepDel("clm", NONE)>> }
+CbTimeEdit == { <<StepSet("clm", Val("int", "exp", WAdd(T0, WOf(500)), 1))>>, <<StepSet("clm", Val("int", "nbf", WSub(T0, WOf(500)), 1))>>,
+                <<StepDel("clm", "exp")>>, <<StepDel("clm", "nbf")>>, <<StepDel("clm", NONE)>>,
+                <<StepSet("clm", Val("int", "exp", WSub(T0, WOf(500)), 1))>>, <<StepSet("clm", Val("int", "nbf", WAdd(T0, WOf(500)), 0))>> }
+CbScripts ==
+  UNION { { Setup(s) \o <<CClaimSetOp(c, "me"), CSetCbOp(p), VerifyOp(TokC(s, m))>> : s \in {TRUE, FALSE}, p \in CbEdit(c), m \in { <<>>, <<StrM(c, "you")>>, <<StrM(c, "me")>> } }
+          : c \in {"iss", "sub", "aud"} }
+  \cup { Setup(s) \o <<CSetCbOp(p), VerifyOp(TokC(s, m))>> : s \in {TRUE, FALSE}, p \in CbTimeEdit,
+           m \in { <<>>, <<IntM("exp", WSub(T0, WOf(5)))>>, <<IntM("exp", WAdd(T0, WOf(5)))>>, <<IntM("nbf", WAdd(T0, WOf(5)))>>, <<IntM("nbf", WSub(T0, WOf(5)))>> } }
+
 \* boundary values that would leave the 64-bit range are dropped (per family: see ISpecFam in Interp.tla)
 OK(S) == { x \in S : \A i \in DOMAIN x : x[i].op = "Verify" => \A j \in DOMAIN x[i].tok.pay.m : InR(x[i].tok.pay.m[j][4]) }
-MCSpec == ISpecFam(<<OK(LatticeScripts), OK(TypeScripts), OK(StrScripts), OK(SeqScripts)>>)
+MCSpec == ISpecFam(<<OK(LatticeScripts), OK(TypeScripts), OK(StrScripts), OK(SeqScripts), CbScripts>>)
 =============================================================================
